@@ -405,6 +405,9 @@ func runC12(c *Ctx) {
 
 	checkOffsetStores(c, "R5", nil)
 
+	// ---------- R8 requests are sent while f.mu is held ----------
+	checkRequestsUnderFileLock(c, "R8", exported)
+
 	// ---------- R7 the goroutines of a transfer end before the method returns (shared with C04.R7) ----------
 	// the feeders read f.handle without the lock; that is sound only because the method holds f.mu until they
 	// have ended, so Close cannot clear the handle (or send CLOSE) underneath them
@@ -668,6 +671,7 @@ func runC13(c *Ctx) {
 	}
 
 	checkWorkerErrorDelivery(c, "R3")
+	checkSequentialEOFSource(c, "R9")
 
 	// R7: ReadFrom / ReadFromWithConcurrency leave the File offset at the end of the intact prefix
 	checkOffsetStores(c, "R7", map[string]bool{"(*File).ReadFrom": true, "(*File).readFromWithConcurrency": true})
@@ -1211,4 +1215,98 @@ func offKey(t term) (string, bool) {
 		}
 	}
 	return "", false
+}
+
+// checkRequestsUnderFileLock (C12.R8): an exported File method that takes f.mu keeps it until its requests have been
+// written: every call from which a request can be sent (anything that reaches clientConn.dispatchRequest) is made with
+// the lock held.  Copying the handle under the lock and sending after releasing it lets Close clear the handle and
+// write CLOSE in between — a request carrying the closed handle then follows the CLOSE on the wire.
+func checkRequestsUnderFileLock(c *Ctx, rule string, exported []*ssa.Function) {
+	p := c.P
+	disp := p.Func("(*clientConn).dispatchRequest")
+	if disp == nil {
+		c.missing(rule, "(*clientConn).dispatchRequest")
+		return
+	}
+	sends := map[*ssa.Function]bool{}
+	var reaches func(f *ssa.Function, seen map[*ssa.Function]bool) bool
+	reaches = func(f *ssa.Function, seen map[*ssa.Function]bool) bool {
+		if f == disp {
+			return true
+		}
+		if v, ok := sends[f]; ok {
+			return v
+		}
+		if seen[f] || f.Blocks == nil || !inModule(f) {
+			return false
+		}
+		seen[f] = true
+		r := false
+		for g := range p.cone(f) {
+			if g == disp {
+				r = true
+			}
+		}
+		sends[f] = r
+		return r
+	}
+	n := 0
+	for _, m := range exported {
+		locks, _ := lockCallsIn(m)
+		if len(locks) == 0 {
+			continue
+		}
+		root := m.Params[0]
+		bad := ""
+		eachInstr(m, func(in ssa.Instruction) {
+			call, ok := in.(*ssa.Call)
+			if !ok {
+				return
+			}
+			f := call.Call.StaticCallee()
+			if f == nil || !reaches(f, map[*ssa.Function]bool{}) {
+				return
+			}
+			// only calls after the lock was taken matter (a method may validate arguments first)
+			after := false
+			for _, l := range locks {
+				if dominates(l.In, in) {
+					after = true
+				}
+			}
+			if !after {
+				return
+			}
+			if heldAt(in, root, "File.mu") == "" {
+				bad = fnName(f) + " at " + p.Pos(in.Pos())
+			}
+		})
+		n++
+		c.check(bad == "", rule, fnName(m)+" sends its requests under f.mu", p.Pos(m.Pos()), "the lock taken at the top is still held at every request-sending call",
+			"the method releases f.mu before calling "+bad+": Close can clear the handle and send CLOSE in between, and the request with the closed handle follows it on the wire")
+	}
+	c.check(n >= 12, rule, "exported File methods that lock", "?", fmt.Sprintf("%d methods", n), fmt.Sprintf("only %d locking methods found", n))
+}
+
+// checkSequentialEOFSource (C13.R9): on the sequential paths end of file is what the server says in a STATUS — a short
+// DATA reply is followed by a further READ for the remainder (which is then answered with the real status).  The
+// chunk reader must therefore never manufacture io.EOF itself: its error results come from the reply (normaliseError
+// of a decoded STATUS), from the transport, or from decoding.
+func checkSequentialEOFSource(c *Ctx, rule string) {
+	p := c.P
+	fn := p.Func("(*File).readChunkAt")
+	if fn == nil {
+		c.missing(rule, "(*File).readChunkAt")
+		return
+	}
+	made := ""
+	for _, rl := range returnLeaves(fn, 1) {
+		for _, l := range leavesOf(rl.v) {
+			if l.Kind == leafGlobal && l.V.Name() == "EOF" {
+				made = p.Pos(rl.block.Instrs[len(rl.block.Instrs)-1].Pos())
+			}
+		}
+	}
+	c.check(made == "", rule, "readChunkAt reports EOF only as told by the server", p.Pos(fn.Pos()), "no return of the io.EOF sentinel itself",
+		"readChunkAt returns io.EOF of its own making (at "+made+"), e.g. after a short DATA reply: Read/ReadAt/sequential WriteTo then report end of file (or success) in the middle of a file, and the status the server would have given for the remainder is never seen")
 }
